@@ -81,7 +81,7 @@ instance (a : SpMat) (probs : List (List Rat)) (k : Nat) (tol : Rat) : Decidable
 
 /-- the stored entries of a matrix as `(row, column, value)` -/
 def triples (a : SpMat) : List (Nat × Nat × Rat) :=
-  (a.zipIdx).flatMap fun (ri : List (Nat × Rat) × Nat) => ri.1.map fun e => (ri.2, e.1, e.2)
+  (List.range a.length).flatMap fun i => (a.getD i []).map fun e => (i, e.1, e.2)
 
 /-- sum of the input weights from cluster `x` (of the rows) to cluster `y` (of the columns) -/
 def aggEntry (a : SpMat) (lr lc : List Nat) (k x y : Nat) : Rat :=
